@@ -333,6 +333,23 @@ class Repo(object):
         """what a global name of `module` denotes: Func | Class | ModuleConst | Module | Ext | None"""
         if _depth > 10:
             return None
+        if name in module.imports and (name in module.functions or name in module.classes or name in module.assigns):
+            # bound more than once at module level: the LAST binding is what the name denotes once the module is imported (a function
+            # defined below `from x import f` shadows the import, and the reverse)
+            last = None
+            for st in module.tree.body:
+                if isinstance(st, (ast.FunctionDef, ast.ClassDef)) and st.name == name:
+                    last = 'def'
+                elif isinstance(st, ast.Assign) and any(isinstance(t, ast.Name) and t.id == name for t in st.targets):
+                    last = 'def'
+                elif isinstance(st, (ast.Import, ast.ImportFrom)) and any((al.asname or al.name.split('.')[0]) == name for al in st.names):
+                    last = 'import'
+            if last == 'import':
+                imp = module.imports[name]
+                if imp[0] != 'module' and imp[1] in self.modules:
+                    r = self.resolve_global(self.modules[imp[1]], imp[2], _depth + 1)
+                    if r is not None:
+                        return r
         if name in module.functions:
             return module.functions[name]
         if name in module.classes:
